@@ -132,7 +132,7 @@ def classify(doc, opts):
         for e in els:
             if e[2] in ("a", "audio", "del", "ins", "map", "noscript", "video") and e[4] and e[4][-1][0] == "elem" and e[4][-1][2] == "p":
                 return "p-end-omitted-before-end-of-a-like-parent"
-            if e[2] == "body" and e[4] and e[4][0][0] == "elem" and e[4][0][2] in ("meta", "link", "script", "style", "template") and not e[3]:
+            if e[2] == "body" and e[4] and e[4][0][0] == "elem" and e[4][0][2] in ("meta", "link") and not e[3]:
                 return "body-start-omitted-before-meta-link-script-style-template"
     for e in els:
         if e[2] in ("pre", "textarea", "listing") and e[4] and e[4][0][0] == "text" and e[4][0][1].startswith("\n"):
